@@ -414,6 +414,7 @@ PROPS = {
     },
     "C19": {
         "sub": "c19",
+        "lean_modules": ["DatamonVerif.Props.C19", "DatamonVerif.Props.C19Slots"],
         "trivial": r"^order$",
         "level_text": "Proof: for every history of appends (any payloads, any - even colliding - random draws, concurrent appends in the "
                       "order of their puts; C19_appends_commute: that order does not matter) C19_tokens_unique (pairwise distinct tokens, from the "
